@@ -183,3 +183,6 @@ META = dict(
     assumptions=["timestamps are whole seconds", "well-formed OHLCV"],
     explanation="the library's collapse and an independent 12-line resampler are executed on the same symbolic stream; bucket count and all six fields compared by z3 on every feasible path (paths = orderings of timestamps relative to bucket edges)",
 )
+
+# families added after the seeding rounds (kept next to the original bound so that MANIFEST / evidence stay current)
+META["bounds"] = dict(META["bounds"], quick=META["bounds"]["quick"] + "; added after the seeding rounds: " + 'timestamps from 1906; S90; the stream also as dicts / capitalised dicts / lists; buckets compared after every append and for a one-candle stream; two Hexitals on one feed of Candle objects; 6 concrete timezone-aware instants in UTC / +02:00 / +05:30; 6 concrete sub-second stamps around bucket edges')
